@@ -1130,7 +1130,7 @@ func main() {
 		return
 	}
 	r := run.Rand
-	nHist := run.Scale(6, 90)
+	nHist := run.Scale(6, 28)
 	perHist := len(finalKinds)
 	ki := int(run.Seed) * 5
 	for h := 0; h < nHist; h++ {
@@ -1155,7 +1155,7 @@ func main() {
 		runMain(&ck.Script{Blobs: universe(r, false), Final: ck.Op{Kind: "init"}}, p, -1, true)
 	}()
 	// Delete with AutoGC (cascades), GC and reopen, on the universe with referrers
-	nGC := run.Scale(3, 40)
+	nGC := run.Scale(3, 16)
 	for h := 0; h < nGC; h++ {
 		for _, kind := range gcKinds {
 			sc := &ck.Script{Blobs: universeGC(r), AutoGC: !strings.HasPrefix(kind, "gc-") || r.Bool()}
